@@ -330,6 +330,21 @@ func init() {
 		reg(&explore.Suite{Name: fmt.Sprintf("live-termgap3-d%d", d), Cfg: sim.Config{Voters: 3}, Seed: termGap, Leaf: monitor.Continuation(150),
 			Budget: sim.Budget{Timeouts: 1, Elapses: 1, Writes: 1, Cuts: 1, Reorders: -1, Splits: 1, Deviations: d}})
 	}
+	// S-readd (C15, snapshots on): n2 holds a local snapshot (label 2) and has been
+	// removed from the configuration (committed at index 4); a leader that adds it
+	// again starts probing below n2's snapshot.
+	readd := append(append([]sim.Event{}, seedLeader3...), sim.MustParse(
+		"write n0", "rt 0>1:AE#2", "rt 0>2:AE#2", "remove n0 a=2", "rt 0>1:AE#3", "rt 0>2:AE#3", "rt 0>1:AE#4", "rt 0>2:AE#4", "beat n0")...)
+	for d := 0; d <= 3; d++ {
+		reg(&explore.Suite{Name: fmt.Sprintf("live-readd3-d%d", d), Cfg: sim.Config{Voters: 3, SnapAt: 2}, Seed: readd, Monitors: snapMonitors, Leaf: monitor.Continuation(150),
+			Budget: sim.Budget{Timeouts: 1, Elapses: 1, Beats: 1, Writes: 1, Members: 1, Cuts: 1, Reorders: -1, Splits: 1, Deviations: d}})
+	}
+	// eager follower (C15): only n2 takes local snapshots, so its snapshot runs
+	// ahead of what the leader still probes after reordered or late replies.
+	for d := 0; d <= 4; d++ {
+		reg(&explore.Suite{Name: fmt.Sprintf("live-eager3-d%d", d), Cfg: sim.Config{Voters: 3, SnapAt: 2, SnapNodes: []int{2}}, Seed: seedLeader3, Monitors: snapMonitors, Leaf: monitor.Continuation(150),
+			Budget: sim.Budget{Timeouts: 1, Elapses: 1, Beats: 2, Writes: 2, Cuts: 1, Reorders: -1, Splits: 2, Deviations: d}})
+	}
 	// C15: exploration families with the fault-free continuation evaluated on
 	// every leaf (quick) or every distinct state (thorough, suffix "all").
 	for d := 0; d <= 4; d++ {
